@@ -1,8 +1,10 @@
 package props
 
 import (
+	"bytes"
 	"fmt"
 	"math"
+	"reflect"
 	"sort"
 	"testing"
 	"time"
@@ -10,6 +12,7 @@ import (
 	"github.com/peterstace/simplefeatures/geom"
 	"pgregory.net/rapid"
 
+	"verif/internal/apienum"
 	"verif/internal/gen"
 	"verif/internal/gm"
 	"verif/internal/h"
@@ -559,6 +562,9 @@ func c16Check(c C16Case, cx *h.Ctx) *h.Failure {
 			return fail("ctype/xy-only-op", "%s must return an XY geometry: %s", v.name, m)
 		}
 	}
+	if f := c16Typed(g, fail); f != nil {
+		return f
+	}
 	if model.CT != 0 && (hasEmptyMember(model) || model.Depth() >= 2) {
 		cx.NonTrivial()
 	}
@@ -578,6 +584,7 @@ func c16FlatCtors(model gm.G, fail func(class, format string, args ...interface{
 	}
 	ct := model.CT
 	var got geom.Geometry
+	var owned [][]float64 // the caller's slices handed to the constructor
 	switch model.T {
 	case gm.Point:
 		if len(model.Co) == 0 {
@@ -593,7 +600,9 @@ func c16FlatCtors(model gm.G, fail func(class, format string, args ...interface{
 		if len(model.Co) == 0 {
 			return nil
 		}
-		got = [4]func(...float64) geom.LineString{geom.NewLineStringXY, geom.NewLineStringXYZ, geom.NewLineStringXYM, geom.NewLineStringXYZM}[ct](fl(model.Co)...).AsGeometry()
+		c := fl(model.Co)
+		owned = append(owned, c)
+		got = [4]func(...float64) geom.LineString{geom.NewLineStringXY, geom.NewLineStringXYZ, geom.NewLineStringXYM, geom.NewLineStringXYZM}[ct](c...).AsGeometry()
 	case gm.MultiPoint:
 		var flat []float64
 		for _, m := range model.Mem {
@@ -605,6 +614,7 @@ func c16FlatCtors(model gm.G, fail func(class, format string, args ...interface{
 		if len(flat) == 0 {
 			return nil
 		}
+		owned = append(owned, flat)
 		got = [4]func(...float64) geom.MultiPoint{geom.NewMultiPointXY, geom.NewMultiPointXYZ, geom.NewMultiPointXYM, geom.NewMultiPointXYZM}[ct](flat...).AsGeometry()
 	case gm.MultiLineString:
 		var seqs [][]float64
@@ -617,6 +627,7 @@ func c16FlatCtors(model gm.G, fail func(class, format string, args ...interface{
 		if len(seqs) == 0 {
 			return nil
 		}
+		owned = append(owned, seqs...)
 		got = [4]func(...[]float64) geom.MultiLineString{geom.NewMultiLineStringXY, geom.NewMultiLineStringXYZ, geom.NewMultiLineStringXYM, geom.NewMultiLineStringXYZM}[ct](seqs...).AsGeometry()
 	case gm.Polygon:
 		var rings [][]float64
@@ -629,6 +640,7 @@ func c16FlatCtors(model gm.G, fail func(class, format string, args ...interface{
 		if len(rings) == 0 {
 			return nil
 		}
+		owned = append(owned, rings...)
 		got = [4]func(...[]float64) geom.Polygon{geom.NewPolygonXY, geom.NewPolygonXYZ, geom.NewPolygonXYM, geom.NewPolygonXYZM}[ct](rings...).AsGeometry()
 		if len(rings) == 1 {
 			single := [4]func(...float64) geom.Polygon{geom.NewSingleRingPolygonXY, geom.NewSingleRingPolygonXYZ, geom.NewSingleRingPolygonXYM, geom.NewSingleRingPolygonXYZM}[ct](rings[0]...).AsGeometry()
@@ -650,6 +662,7 @@ func c16FlatCtors(model gm.G, fail func(class, format string, args ...interface{
 				rings = append(rings, fl(r))
 			}
 			polys = append(polys, rings)
+			owned = append(owned, rings...)
 		}
 		if len(polys) == 0 {
 			return nil
@@ -663,6 +676,82 @@ func c16FlatCtors(model gm.G, fail func(class, format string, args ...interface{
 	}
 	if d := gm.Diff(model, gm.FromGeom(got)); d != "" {
 		return fail("ctype/flat-constructor", "the %s flat-coordinate constructor for %s builds a different geometry: %s", gm.CTName(ct), model.T, d)
+	}
+	// the built geometry owns its data: the caller goes on to reuse its slices
+	for _, o := range owned {
+		for i := range o {
+			o[i] = 12345.5
+		}
+	}
+	if d := gm.Diff(model, gm.FromGeom(got)); d != "" {
+		return fail("ctype/flat-constructor-keeps-callers-slice", "the geometry built by the %s flat-coordinate constructor for %s changed when the caller overwrote the slices it had passed: %s", gm.CTName(ct), model.T, d)
+	}
+	return nil
+}
+
+// c16Typed: the methods of the concrete type. (a) Centroid / ConvexHull / PointOnSurface / Envelope called on
+// the concrete type return XY and the same value as through Geometry; (b) a slice returned by any accessor
+// without arguments (Dump, DumpRings, ...) is the caller's: overwriting its elements must not change the receiver.
+func c16Typed(g geom.Geometry, fail func(class, format string, args ...interface{}) *h.Failure) *h.Failure {
+	asGeom := func(v reflect.Value) (geom.Geometry, bool) {
+		if gg, ok := v.Interface().(geom.Geometry); ok {
+			return gg, true
+		}
+		if m := v.MethodByName("AsGeometry"); m.IsValid() && m.Type().NumIn() == 0 {
+			if gg, ok := m.Call(nil)[0].Interface().(geom.Geometry); ok {
+				return gg, true
+			}
+		}
+		return geom.Geometry{}, false
+	}
+	recvs := apienum.Receivers(g)
+	for _, rv := range recvs[:2] {
+		if _, ok := rv.Interface().(geom.Sequence); ok {
+			continue
+		}
+		if _, ok := rv.Interface().(geom.Envelope); ok {
+			continue
+		}
+		tn := rv.Type().Name()
+		for _, name := range []string{"Centroid", "ConvexHull", "PointOnSurface", "Envelope"} {
+			m := rv.MethodByName(name)
+			gm0 := reflect.ValueOf(g).MethodByName(name)
+			if !m.IsValid() || m.Type().NumIn() != 0 {
+				continue
+			}
+			res, ok1 := asGeom(m.Call(nil)[0])
+			want, ok2 := asGeom(gm0.Call(nil)[0])
+			if !ok1 || !ok2 {
+				continue
+			}
+			if msg := c16Walk(res, geom.DimXY, tn+"."+name); msg != "" {
+				return fail("ctype/xy-only-op", "%s.%s must return an XY geometry: %s", tn, name, msg)
+			}
+			if !bytes.Equal(res.AsBinary(), want.AsBinary()) {
+				return fail("ctype/typed-method-differs", "%s.%s() = %s but Geometry.%s() = %s", tn, name, clip(res.AsText(), 200), name, clip(want.AsText(), 200))
+			}
+		}
+		before := g.AsBinary()
+		t := rv.Type()
+		for i := 0; i < t.NumMethod(); i++ {
+			m := rv.Method(i)
+			if m.Type().NumIn() != 0 || m.Type().NumOut() < 1 || m.Type().Out(0).Kind() != reflect.Slice || t.Method(i).Name == "AsBinary" {
+				continue
+			}
+			out := m.Call(nil)[0]
+			for j := 0; j < out.Len(); j++ {
+				if out.Index(j).CanSet() {
+					out.Index(j).Set(reflect.Zero(out.Type().Elem()))
+				}
+			}
+			ab := rv.MethodByName("AsBinary")
+			if !ab.IsValid() {
+				break
+			}
+			if after := ab.Call(nil)[0].Bytes(); !bytes.Equal(before, after) {
+				return fail("ctype/returned-slice-aliases-receiver", "overwriting the elements of the slice returned by %s.%s() changed the receiver: %s", tn, t.Method(i).Name, clip(g.AsText(), 200))
+			}
+		}
 	}
 	return nil
 }
@@ -917,7 +1006,7 @@ func TestC16(t *testing.T) {
 	h.Run(t, h.Prop[C16Case]{
 		ID:              "C16",
 		WholeCheckLimit: 300 * time.Second,
-		Rule:            "cases = a geometry of any of the 7 types x 4 coordinate types (integer XY; empties at every position, nested collections, zero values; half valid by construction) in which every vertex carries the unique tags Z = i, M = -i, plus parameters (member coordinate types for mixed construction, Densify distance, Simplify threshold, SnapToGrid places -2..3, interpolation fraction and count). Checks: a recursive walker asserts one CoordinatesType() for the geometry and everything reachable (PointN/LineStringN/PolygonN/GeometryN, rings, DumpRings, Coordinates(), Get(i).Type, StartPoint/EndPoint, Dump, DumpCoordinates) after construction and after every operation; constructors given members of different coordinate types reduce to the common subset with values per the harness model; ForceCoordinatesType(each of 4)/Force2D = harness model exactly (also on empties); Reverse/ForceCW/ForceCCW/AsMulti*/Dump keep the multiset of full (XY,Z,M) positions; DumpCoordinates lists them in order; TransformXY changes XY only; SnapToGrid keeps Z/M and integer XY (places >= 0); Densify keeps originals in order with their tags and interpolates Z/M linearly on inserted vertices; Simplify keeps the coordinate type (also when empty) and only emits original tagged vertices; Interpolate* keep the coordinate type; WKB/WKT round trips are identical; Centroid, ConvexHull, PointOnSurface, Envelope geometry and the set operations return XY throughout. non-trivial = coordinate type != XY and (an empty member or nesting)",
+		Rule:            "cases = a geometry of any of the 7 types x 4 coordinate types (integer XY; empties at every position, nested collections, zero values; half valid by construction) in which every vertex carries the unique tags Z = i, M = -i, plus parameters (member coordinate types for mixed construction, Densify distance, Simplify threshold, SnapToGrid places -2..3, interpolation fraction and count). Checks: a recursive walker asserts one CoordinatesType() for the geometry and everything reachable (PointN/LineStringN/PolygonN/GeometryN, rings, DumpRings, Coordinates(), Get(i).Type, StartPoint/EndPoint, Dump, DumpCoordinates) after construction and after every operation; constructors given members of different coordinate types reduce to the common subset with values per the harness model; ForceCoordinatesType(each of 4)/Force2D = harness model exactly (also on empties); Reverse/ForceCW/ForceCCW/AsMulti*/Dump keep the multiset of full (XY,Z,M) positions; DumpCoordinates lists them in order; TransformXY changes XY only; SnapToGrid keeps Z/M and integer XY (places >= 0); Densify keeps originals in order with their tags and interpolates Z/M linearly on inserted vertices; Simplify keeps the coordinate type (also when empty) and only emits original tagged vertices; Interpolate* keep the coordinate type; WKB/WKT round trips are identical; Centroid, ConvexHull, PointOnSurface, Envelope geometry (through Geometry and the concrete types, same value) and the set operations return XY throughout; constructors neither keep nor change the caller's slices; slices returned by accessors without arguments can be overwritten without changing the receiver. non-trivial = coordinate type != XY and (an empty member or nesting)",
 		Assumptions:     []string{"gm model conversion through public constructors/accessors (read-back checked per case)"},
 		Gen:             c16Gen,
 		Check:           c16Check,
